@@ -3,7 +3,7 @@
 p=$1
 cd /verif
 before=$(ls seeded | grep "^$p-" | sort)
-timeout 6000 python3 tools/seeded_import.py $p /tmp/seed4_${p}_out 2>&1 | grep -E "^(KEPT|REJECTED)"
-git -C /repo worktree remove --force /tmp/seed4_$p 2>/dev/null
+timeout 6000 python3 tools/seeded_import.py $p /tmp/seed${W:-4}_${p}_out 2>&1 | grep -E "^(KEPT|REJECTED)"
+git -C /repo worktree remove --force /tmp/seed${W:-4}_$p 2>/dev/null
 new=$(comm -13 <(echo "$before") <(ls seeded | grep "^$p-" | sort))
 [ -n "$new" ] && timeout 3000 python3 tools/seeded_run.py --jobs 3 $new 2>&1 | tail -5
